@@ -10,7 +10,11 @@
                                                                VL removes; VL adds; VN raises]
    -> VL [VL visited; VL caught; VL live; VL visited by the variant with one try around the loop]
    run (VL [VN 11; VL caps; VN sid; VN closes; VL [VL needs ...]])
-   -> VL [VL [VN connected; VN caps known; VN id known]; VL [outcome of each call: 0 sent | 1 refused | 2 missing | 3 other]] *)
+   -> VL [VL [VN connected; VN caps known; VN id known]; VL [outcome of each call: 0 sent | 1 refused | 2 missing | 3 other]]
+   run (VL [VN 12; VL caps; VN sid; VN style (0 keep | 1 guarded drop | 2 drop); VN lost (0 live | 1 after the thread's close());
+            VL [op ...]])      op = VN 0 close | VN 1 close_session | VL [VN 2; body] with-block, body = VN 0 pass | VN 1 raise | VL needs
+                                    | VL [VN 3; VL needs] request
+   -> VL [VL [outcome code of each operation]; VL [VN connected; VN handle]] *)
 From NC Require Import Model.Base Model.SessionLTS Model.SessionHist Model.SessionEnd.
 
 Definition dec_kind (v : val) : option tkind :=
@@ -60,6 +64,24 @@ Fixpoint dec_needs (l : list val) : option (list (list N)) :=
 Definition enc_ns (l : list N) : val := VL (map VN l).
 Definition is_some {A} (o : option A) : bool := match o with Some _ => true | None => false end.
 
+Definition dec_style (v : val) : option cstyle :=
+  match v with VN 0 => Some CKeep | VN 1 => Some CGuardDrop | VN 2 => Some CDrop | _ => None end.
+Definition dec_cop (v : val) : option cop :=
+  match v with
+  | VN 0 => Some OClose
+  | VN 1 => Some OCloseSession
+  | VL [VN 2; VN 0] => Some (OWith BPass)
+  | VL [VN 2; VN 1] => Some (OWith BRaise)
+  | VL [VN 2; VL needs] => match dec_ns needs with Some ns => Some (OWith (BReq ns)) | None => None end
+  | VL [VN 3; VL needs] => match dec_ns needs with Some ns => Some (OReq ns) | None => None end
+  | _ => None
+  end.
+Fixpoint dec_cops (l : list val) : option (list cop) :=
+  match l with
+  | [] => Some []
+  | v :: l' => match dec_cop v, dec_cops l' with Some x, Some xs => Some (x :: xs) | _, _ => None end
+  end.
+
 Definition run (v : val) : val :=
   match v with
   | VL [VN 10; VL snap; VL live0] =>
@@ -76,6 +98,13 @@ Definition run (v : val) : val :=
           VL [VL [vbool (e_connected o); vbool (is_some (e_caps o)); vbool (is_some (e_sid o))];
               VL (map (fun needs => VN (rout_code (request needs o))) calls)]
       | _, _ => verr 4
+      end
+  | VL [VN 12; VL caps; VN sid; sty; VN lost; VL ops] =>
+      match dec_ns caps, dec_style sty, dec_cops ops with
+      | Some caps, Some sty, Some ops =>
+          let '(cs, t) := run_cops sty ops (if N.eqb lost 0 then live_t caps sid else lost_t sty caps sid) in
+          VL [enc_ns cs; VL [vbool (e_connected (t_obj t)); vbool (t_handle t)]]
+      | _, _, _ => verr 5
       end
   | VL [k; VL hs] =>
       match dec_kind k, dec_steps hs with
